@@ -184,7 +184,7 @@ mod builtins {
     use crate::formatting::{
         format as format_string, format_printf_with, FormatConversion, FormatStyle,
     };
-    use crate::utils::{safe_sort, splitn_whitespace};
+    use crate::utils::{safe_sort, splitn_whitespace, untrusted_size_hint};
     use crate::value::merge_object::{MergeDict, MergeSeq};
     use crate::value::ops::{self, as_f64, LenIterWrap};
     use crate::value::{
@@ -1030,7 +1030,12 @@ mod builtins {
         let items_per_slice = len / count;
         let slices_with_extra = len % count;
         let mut offset = 0;
-        let mut rv = Vec::with_capacity(count);
+        // the result has `count` entries: fail instead of panicking or aborting
+        // when that many cannot be allocated.
+        let mut rv = Vec::new();
+        if rv.try_reserve_exact(count).is_err() {
+            return Err(Error::new(ErrorKind::InvalidOperation, "count is too large"));
+        }
 
         for slice in 0..count {
             let start = offset + slice * items_per_slice;
@@ -1083,13 +1088,14 @@ mod builtins {
             return Err(Error::new(ErrorKind::InvalidOperation, "count cannot be 0"));
         }
         let mut rv = Vec::with_capacity(value.len().unwrap_or(0) / count);
-        let mut tmp = Vec::with_capacity(count);
+        // the batch size is user input and can exceed what is ever filled
+        let mut tmp = Vec::with_capacity(untrusted_size_hint(count));
 
         for item in ok!(state.undefined_behavior().try_iter(value)) {
             if tmp.len() == count {
                 rv.push(Value::from(mem::replace(
                     &mut tmp,
-                    Vec::with_capacity(count),
+                    Vec::with_capacity(untrusted_size_hint(count)),
                 )));
             }
             tmp.push(item);
@@ -1097,7 +1103,11 @@ mod builtins {
 
         if !tmp.is_empty() {
             if let Some(filler) = fill_with {
-                for _ in 0..count - tmp.len() {
+                let missing = count - tmp.len();
+                if tmp.try_reserve_exact(missing).is_err() {
+                    return Err(Error::new(ErrorKind::InvalidOperation, "count is too large"));
+                }
+                for _ in 0..missing {
                     tmp.push(filler.clone());
                 }
             }
